@@ -153,8 +153,8 @@ func c16Body(s *simkit.Sim, rc *simkit.RunCtx) {
 	validIDs := map[string]bool{} // presentation ids registered by the real clients (valid by construction)
 	defectiveIDs := map[string]string{}
 	regAt := map[string]time.Duration{}        // accepted by the server at (virtual time)
-	supersededAt := map[string]time.Duration{} // replaced by a newer entry of the same subject at
-	current := map[string]string{}
+	supersededAt := map[string]time.Duration{} // known to have been replaced by a newer entry of the same subject by then
+	var regs []c16Reg
 	maxTS := 0
 	serverList := func() (*listAnswer, error) {
 		code, body := w.Nodes["nodea"].Call("GET", "/discovery/sim-svc?timestamp=0", nil)
@@ -204,10 +204,17 @@ func c16Body(s *simkit.Sim, rc *simkit.RunCtx) {
 					if _, bad := defectiveIDs[vp.ID]; !bad {
 						validIDs[vp.ID] = true
 						regAt[vp.ID] = rec.At
-						if prev, ok := current[vp.Signer]; ok && prev != vp.ID {
-							supersededAt[prev] = rec.At
+						// Which of two registrations of one subject the server keeps is decided by the order in which it
+						// applies them, not by the order in which the answers arrive: an entry is known to be gone only once
+						// a registration of the same subject that began after this one had been answered was accepted.
+						regs = append(regs, c16Reg{ID: vp.ID, Signer: vp.Signer, StartStep: rec.Step, DoneStep: rec.DoneStep, Done: s.Now()})
+						for _, older := range regs {
+							if older.Signer == vp.Signer && older.ID != vp.ID && older.DoneStep < rec.Step {
+								if _, known := supersededAt[older.ID]; !known {
+									supersededAt[older.ID] = s.Now()
+								}
+							}
 						}
-						current[vp.Signer] = vp.ID
 					}
 					mu.Unlock()
 				}
@@ -545,7 +552,72 @@ func c16Body(s *simkit.Sim, rc *simkit.RunCtx) {
 				}
 				if !live[id] {
 					at, ok := supersededAt[id]
+					if !ok {
+						// not known to be replaced: if a registration of the same subject overlapped with this one, the
+						// server may have applied this one first - it is gone, since when is not known
+						overlapped := false
+						for _, x := range regs {
+							if x.ID != id {
+								continue
+							}
+							for _, y := range regs {
+								if y.Signer == x.Signer && y.ID != x.ID && !(y.DoneStep < x.StartStep) && !(x.DoneStep < y.StartStep) {
+									overlapped = true
+								}
+							}
+						}
+						if overlapped {
+							s.Probes.Inc("overlapping-registrations-of-one-subject")
+							continue
+						}
+					}
 					if !ok || now-at > settle {
+						if os.Getenv("C16DEBUG") != "" {
+							fmt.Println("NOW", now, "settle", settle, "client", name, "stale id", id)
+							db := clients[name].Storage.Real.GetSQLDatabase()
+							var svc []map[string]interface{}
+							db.Raw("SELECT id, seed, last_lamport_timestamp FROM discovery_service").Scan(&svc)
+							fmt.Println("  CLIENT discovery_service", svc)
+							var rows []map[string]interface{}
+							db.Raw("SELECT presentation_id, lamport_timestamp, validated FROM discovery_presentation").Scan(&rows)
+							for _, r := range rows {
+								fmt.Println("  CLIENT row", r)
+							}
+							var srows []map[string]interface{}
+							w.Nodes["nodea"].Storage.Real.GetSQLDatabase().Raw("SELECT presentation_id, lamport_timestamp FROM discovery_presentation").Scan(&srows)
+							for _, r := range srows {
+								fmt.Println("  SERVER row", r)
+							}
+							for k, v := range regAt {
+								fmt.Println("  reg", k, "at", v, "supersededAt", supersededAt[k], "live", live[k], "got", got[k])
+							}
+							for _, r := range w.HTTP.Requests() {
+								if strings.Contains(r.Path, "/discovery/") {
+									desc := ""
+									if r.Method == "GET" {
+										var pr struct {
+											Entries   map[string]string `json:"entries"`
+											Timestamp int               `json:"timestamp"`
+										}
+										_ = json.Unmarshal(r.RespBody, &pr)
+										desc = fmt.Sprintf("ts=%d", pr.Timestamp)
+										for k, raw := range pr.Entries {
+											if vp, err := parseJWTVP(raw); err == nil {
+												desc += fmt.Sprintf(" [%s:%s]", k, vp.ID[len(vp.ID)-8:])
+											}
+										}
+									} else {
+										var raw string
+										if json.Unmarshal(r.ReqBody, &raw) == nil {
+											if vp, err := parseJWTVP(raw); err == nil {
+												desc = "registers " + vp.ID[len(vp.ID)-8:]
+											}
+										}
+									}
+									fmt.Println("  http", r.At, r.Step, r.DoneStep, r.From, r.Method, r.URL[len(r.URL)-14:], r.Status, r.Fault, desc)
+								}
+							}
+						}
 						mu.Unlock()
 						s.Fail("C16.converge", "stale:"+where, "%s: search returns %s which has not been a live registration on the server for more than two refresh intervals", name, id)
 						return
@@ -611,6 +683,12 @@ func c16Body(s *simkit.Sim, rc *simkit.RunCtx) {
 		}
 	}
 	rc.Nontrivial = ps.polls > 0 || len(validIDs) > 0
+}
+
+type c16Reg struct {
+	ID, Signer          string
+	StartStep, DoneStep int
+	Done                time.Duration
 }
 
 type searchRes struct {
